@@ -14,7 +14,7 @@ META = {
                    "ant-networking/encrypt-records, the analysed ant_networking build has cfg(feature=\"encrypt-records\"), and with the "
                    "literal cfg! folded the un-authenticated `return Some(record)` of get_record_from_bytes is unreachable; (2) "
                    "get_record_from_bytes returns Some only on the Ok side of Aead::decrypt; the start-up scan keeps an entry only if "
-                   "get_record_from_bytes is Some and the header parses, and deletes the file on the failing sides; (3) with_config seeds "
+                   "get_record_from_bytes is Some and the header parses, and deletes the file on the failing sides, while on the side where every decode check accepts neither a deletion nor any exit other than the index entry is reachable (a completed write is always re-indexed); (3) with_config seeds "
                    "records, records_by_distance and farthest_record from that scan, so a completed file write is recovered even if its "
                    "AddLocalRecordAsStored was lost; (4) the encryption seed derives only from PeerId::from(keypair.public()) and the nonce "
                    "only from the record key — no time/random source flows into either. Not decided: that every torn prefix fails "
